@@ -48,6 +48,12 @@ let timeout_of chan args =
       (match List.assoc_opt "glen" args with
        | Some g -> (try 1 + int_of_string g / 1_000_000 with _ -> 1)
        | None -> 1)
+    else if chan = "scc" then
+      (* dense graphs of several hundred nodes (thorough tier): the list-based models of the
+         four SCC algorithms take about 0.5 s per thousand arcs *)
+      (match List.assoc_opt "arcs" args with
+       | Some a -> (try 1 + int_of_string a / 8_000 with _ -> 1)
+       | None -> 1)
     else 1 in
   float_of_int (if chan = "prank" then 6 * case_timeout
                 else if chan = "sccbig" || chan = "llpbig" then 10 * case_timeout
